@@ -165,7 +165,15 @@ def check(plan, r):
         """an 'upgraded:<copy>' secret only means something while the plan still holds the upgrading copy AND the destruction of its public source (the minimiser may have dropped them)"""
         if not label.startswith("upgraded:"): return True
         cp = [op for op in ops0 if op.get("f") == "C_CopyObject" and op.get("out") == label[9:] and op.get("upgrade")]
-        return bool(cp) and any(op.get("f") == "C_DestroyObject" and op.get("o") == cp[0].get("o") for op in ops0)
+        if not cp or not any(op.get("f") == "C_DestroyObject" and op.get("o") == cp[0].get("o") for op in ops0): return False
+        # "belongs only to the private copy" must be true by the plan itself: no other copy of the same source (or of its copies) that stays public
+        fam = {cp[0].get("o")}
+        for op in ops0:
+            if op.get("f") == "C_CopyObject" and op.get("o") in fam and op is not cp[0]:
+                pv = [e for e in op.get("tmpl", []) if e[0] == K.CKA_PRIVATE]
+                if not (pv and pv[0][2] == "01"): return False
+                fam.add(op.get("out"))
+        return True
     for e in hist.mons(r, "plaintext_on_disk"):
         if not upgrade_intact(e["d"].get("secret", "")): continue
         viols.append(_v("C06.plaintext_on_disk", "after a write of call #%s the file %s contains %s in the clear" % (e.get("op"), e["d"]["path"].split("/")[-1], describe_secret(e["d"]["secret"])),
